@@ -518,6 +518,13 @@ func (e *env) corpus() {
 					e.decodeAndCheck(w[1], b, "corpus witness "+ent.Name())
 				}
 			}
+			// `bech <hex>`: a string for the bech32 decoder (BIP-173 test vectors and boundary strings), compared with the Lean model
+			if len(w) == 2 && w[0] == "bech" {
+				if b, err := hex.DecodeString(strings.TrimPrefix(w[1], "-")); err == nil {
+					e.out.Count("corpus")
+					e.bech32One(string(b), "corpus witness "+ent.Name())
+				}
+			}
 		}
 	}
 }
@@ -1438,6 +1445,7 @@ func TestC20(t *testing.T) {
 	e.handlerSweep(t)
 	e.containSweep(t)
 	e.decoderSweep()
+	e.bech32Sweep()
 	e.feeSweep()
 	e.hostileAnte()
 	e.anteRawSweep(t)
